@@ -139,6 +139,28 @@ def run(ctx):
         ctx.count('rdm_numeric', 1, nontrivial_key=(nq, ne, i))
         if abs(rdm.expectation(iop) - ev(of.get_fermion_operator(iop))) > 1e-9:
             ctx.violation('C17 InteractionRDM.expectation differs from <psi|H|psi>', {'n_qubits': nq, 'n_electrons': ne})
+        # InteractionRDM.get_qubit_expectations / expectation(QubitOperator): every Pauli string in the JW image of a one- or
+        # two-body number-conserving term (spin-flipping ones included; the state is not an S_z eigenstate) against <psi|P|psi>
+        pstrs = set()
+        for _ in range(6):
+            a_, b_, c_, d_ = (rng.randrange(nq) for _ in range(4))
+            pstrs |= set(of.jordan_wigner(of.FermionOperator(((a_, 1), (b_, 0))) + of.FermionOperator(((b_, 1), (a_, 0)))).terms)
+            if a_ != b_ and c_ != d_: pstrs |= set(of.jordan_wigner(of.FermionOperator(((a_, 1), (b_, 1), (c_, 0), (d_, 0))) + of.FermionOperator(((d_, 1), (c_, 1), (b_, 0), (a_, 0)))).terms)
+        qtest = of.QubitOperator()
+        for t in sorted(pstrs)[:12]: qtest += of.QubitOperator(t, float(dy(rng) or 1.0))
+        try:
+            qexp = rdm.get_qubit_expectations(qtest)
+            tot = rdm.expectation(qtest)
+            ref_tot = 0.0
+            for t, c in qtest.terms.items():
+                ref = complex(psi.conj() @ (of.get_sparse_operator(of.QubitOperator(t), nq) @ psi)); ref_tot += c * ref
+                ctx.count('rdm_qubit_expectations', 1, nontrivial_key=(i, t))
+                if abs(complex(qexp.terms.get(t, 0.0)) - ref) > 1e-9:
+                    ctx.violation('C17 InteractionRDM.get_qubit_expectations(%r) = %r differs from <psi|P|psi> = %r' % (t, complex(qexp.terms.get(t, 0.0)), ref), {'n_qubits': nq, 'n_electrons': ne, 'pauli': repr(t)})
+            if abs(complex(tot) - ref_tot) > 1e-8:
+                ctx.violation('C17 InteractionRDM.expectation(QubitOperator) differs from <psi|Q|psi>', {'n_qubits': nq, 'n_electrons': ne, 'terms': repr(qtest.terms)})
+        except Exception as e:
+            ctx.violation('C17 InteractionRDM qubit expectations raised %s: %s' % (type(e).__name__, e), {'n_qubits': nq, 'terms': repr(qtest.terms)})
         qe = {}
         # get_interaction_rdm from qubit expectations of the JW images
         from openfermion.measurements import get_interaction_rdm
